@@ -80,6 +80,9 @@ class RemoveAddZeroPass(InstructionPass):
     def on_instruction(self, instruction):
         if type(instruction) is ir.Binop:
             if instruction.operation == "+":
+                # x + 0.0 is 0.0 for x = -0.0, leave floating point alone:
+                if isinstance(instruction.ty, ir.FloatingPointTyp):
+                    return
                 if (
                     type(instruction.b) is ir.Const
                     and instruction.b.value == 0
